@@ -45,6 +45,14 @@ def get_func_in_module(module: str, qualname: str) -> Callable[..., Any]:
         raise InvalidTypeError(
             f"{module}.{qualname} is of type '{type(func)}', not function."
         )
+    if getattr(func, "__qualname__", qualname) != qualname:
+        # The name is bound to some other function (an undecorating wrapper, an
+        # alias of a local function): it is not the function that was traced
+        # under this name, and nothing can be looked up under the other one.
+        raise InvalidTypeError(
+            f"{module}.{qualname} is bound to the function "
+            f"{getattr(func, '__module__', '?')}.{func.__qualname__}, not to a function of that name."
+        )
     return func  # type: ignore[no-any-return]
 
 
